@@ -222,6 +222,10 @@ for _k in ('C11', 'C12', 'C14'):
 CHECKS['C10']['text'] = CHECKS['C10']['text'] + ' OPTIONS-STABLE covers find_extrema_kwargs, filter_kwargs, burst_kwargs (which carries fs / f_range for the amplitude method) and threshold_kwargs.'
 CHECKS['C13']['text'] = CHECKS['C13']['text'] + ' EMPTY-EPOCH is decided on the label term specialised to an empty table (nrows := 0): no constant-index store may remain.'
 CHECKS['C19']['text'] = CHECKS['C19']['text'] + ' OPTION-REACH places the invalid per-epoch entry last and in the middle of the list.'
+CHECKS['C08']['text'] = CHECKS['C08']['text'] + ' RAISES: with an array argument the function raises only through the documented range check of min_n_cycles.'
+CHECKS['C08']['technique'] += '; raise-condition query on the symbolic run (every recorded raise condition is the documented range check)'
+CHECKS['C01']['text'] = CHECKS['C01']['text'] + ' Borrowed from C08: RAISES (the run filter both detectors end in raises only through the documented range check).'
+CHECKS['C19']['text'] = CHECKS['C19']['text'] + ' Borrowed from C14: REDUCE (what recompute_edges validates is the stored threshold minus r, unclipped).'
 CHECKS['C01']['technique'] += '; version-keyed API lint (np.array copy=False)'
 CHECKS['C09']['technique'] += '; closed effect summary with depth tracking through shallow copies'
 for _k in CHECKS:
